@@ -289,6 +289,18 @@ func runC15(r *Report) {
 		}
 		return out
 	}
+	// id markers are shared keys: the set-if-absent the generators use claims them in the key cache
+	// (the shared cache when one is configured), never in the node-local cache
+	if snx := r.need("R-C15-4", hybPkg, "Storage.SetNX"); snx != nil {
+		tbl := map[string][]tierUse{}
+		n := 0
+		evalTierTable(r.P, snx, consts, nil, 0, false, tbl, &n)
+		used := map[string]bool{}
+		for _, u := range tbl["Shared"] {
+			used[u.tier] = true
+		}
+		r.Ob("R-C15-4", snx.Pos(), len(used) == 1 && used["keycache"], "hybrid SetNX on a shared key (id markers) operates on "+setStr(used)+" (want exactly the key cache: a marker claimed in a node-local cache is invisible to the other nodes)", "hybrid.Storage.SetNX", "marker-claim-tier")
+	}
 	claimT, renewT := tiersOf("SetNXRuntime"), tiersOf("SetRuntime")
 	if claimT != nil && renewT != nil {
 		r.Ob("R-C15-4", 0, setStr(claimT) == setStr(renewT) && len(claimT) > 0, fmt.Sprintf("node-id claim writes %s and renewal writes %s (they must be the same tiers, otherwise the claim expires where other nodes look)", setStr(claimT), setStr(renewT)), "hybrid.Storage", "claim-renew-tier")
